@@ -767,6 +767,7 @@ def _type_from_subscripted_value(
     if root is typing.Union:
         return unite_values(*[_type_from_value(elt, ctx) for elt in members])
     elif is_typing_name(root, "Literal"):
+        members = _flatten_literal_members(members)
         if all(isinstance(elt, KnownValue) for elt in members):
             return unite_values(*members)
         else:
@@ -875,6 +876,21 @@ def _type_from_subscripted_value(
             return GenericValue(origin, [_type_from_value(elt, ctx) for elt in members])
         ctx.show_error(f"Unrecognized subscripted annotation: {root}")
         return AnyValue(AnySource.error)
+
+
+def _flatten_literal_members(members: Sequence[Value]) -> Sequence[Value]:
+    """Literal[Literal[1], 2] is equivalent to Literal[1, 2]."""
+    flattened = []
+    for member in members:
+        if (
+            isinstance(member, _SubscriptedValue)
+            and isinstance(member.root, KnownValue)
+            and is_typing_name(member.root.val, "Literal")
+        ):
+            flattened += _flatten_literal_members(member.members)
+        else:
+            flattened.append(member)
+    return flattened
 
 
 def _maybe_get_extra(origin: type) -> Union[type, str]:
